@@ -69,4 +69,6 @@ b420852 C13
 e2657c3 C04
 a36e732 C03
 d9b8bd6 C15
+c102342 C03
+32170f7 C07
 LIST
